@@ -220,6 +220,12 @@ def run(ctx):
     mixed_calls += [('WcMatch(bytes root, str file pattern)', lambda: WMm.WcMatch(here_b, '*.txt').match()),
                     ('WcMatch(str root, bytes file pattern)', lambda: WMm.WcMatch(here_s, b'*.txt').match()),
                     ('WcMatch(str root, str file pattern, bytes exclude pattern)', lambda: WMm.WcMatch(here_s, '*.txt', b'd', flags=WMm.RECURSIVE).match()),
+                    # an EMPTY root of the other type is still of the other type
+                    ('globmatch REALPATH bytes name, root_dir=\'\'', lambda: Gm.globmatch(b'f.txt', b'*.txt', flags=Gm.REALPATH, root_dir='')),
+                    ('globmatch REALPATH str name, root_dir=b\'\'', lambda: Gm.globmatch('f.txt', '*.txt', flags=Gm.REALPATH, root_dir=b'')),
+                    ('globfilter REALPATH bytes names, root_dir=\'\'', lambda: Gm.globfilter([b'f.txt'], b'*', flags=Gm.REALPATH, root_dir='')),
+                    ('compile().match REALPATH bytes name, root_dir=\'\'', lambda: Gm.compile(b'*.txt', flags=Gm.REALPATH).match(b'f.txt', root_dir='')),
+                    ('glob bytes pattern, root_dir=\'\'', lambda: Gm.glob(b'*', root_dir='')),
                     ('WcMatch(bytes root, None, str exclude pattern)', lambda: WMm.WcMatch(here_b, None, 'd', flags=WMm.RECURSIVE).match())]
     # mixing str and bytes raises TypeError
     for what, thunk in [('fnmatch(str name, bytes pattern)', lambda: Fm.fnmatch('a', b'a')), ('fnmatch(bytes name, str pattern)', lambda: Fm.fnmatch(b'a', 'a')),
@@ -248,7 +254,9 @@ def run(ctx):
         for n in ('a.txt', 'b1', 'c2', '.h', 'd/e.txt', 'd/f/g.py', 'D2/x'):
             os.makedirs(os.path.dirname(os.path.join(tmp, n)) or tmp, exist_ok=True)
             open(os.path.join(tmp, n), 'w').close()
-        for p in ['*', '**', '*/*', '!(a*)', 'd/**', '*.txt', '**/*.@(py|txt)', '[a-c]*', '.*', '{a.txt,b1}', 'a*|b*', '!a*']:
+        for p in ['*', '**', '*/*', '!(a*)', 'd/**', '*.txt', '**/*.@(py|txt)', '[a-c]*', '.*', '{a.txt,b1}', 'a*|b*', '!a*',
+                  # every spelling of the separators, a dangling backslash, `.`/`..` segments, a trailing separator
+                  'd//*', 'd///f//*.py', '**//*.txt', 'd/\\/*', 'd//', 'd/\\', './d/*', 'd/../*', 'd/./f/*', '*/', 'd/f/', '*//']:
             for gv in (Gm.GLOBSTAR | Gm.EXTGLOB, Gm.GLOBSTAR | Gm.EXTGLOB | Gm.NEGATE | Gm.BRACE | Gm.SPLIT | Gm.MARK, Gm.DOTGLOB | Gm.EXTGLOB | Gm.NEGATE):
                 evals += 1
                 rs = Gm.glob(p, flags=gv, root_dir=tmp)
